@@ -1,10 +1,9 @@
 SPECIFICATION Spec
 CONSTANTS NumIter = 6
  MaxRuns = 2
- Rule = "postignored"
+ Rule = "flagkept"
 INVARIANT ConvergedOnlyIfCriteria
 INVARIANT FaultFlagged
 INVARIANT DistanceOfReturned
 INVARIANT ReturnedIsLastValid
-INVARIANT Emit
 CHECK_DEADLOCK FALSE
